@@ -31,6 +31,10 @@ def match_finding(v, kk):
                    site.get("next2") if site.get("next") in ("(", "sizeof(") else ""]
             if tup in m["table"]:
                 return key
+            # an operator glued to a following "(": the charts (levels 1-2, every charted content of the parenthesis: 30 classes, all
+            # "always missed") show that what the parenthesis contains plays no part -- the class is (operator, literal, previous item, "(")
+            if v["op"] == "no_space_after_op" and tup[3] == "(" and any(t[:4] == tup[:4] for t in m["table"]):
+                return key
             continue
         if m.get("op") != v["op"]:
             continue
